@@ -154,6 +154,23 @@ theorem metadata_cannot_inject {κ : Type} (g : Fixes) (encode : CertData → κ
     createCertificate g encode srv ctx outs req1 now = createCertificate g encode srv ctx outs req2 now := by
   simp only [createCertificate, effectiveSans, hcsr, hv, himp]
 
+/-- `util.GenCSR` asks for names only: no CA, no further extension, a valid proof of possession. -/
+theorem gencsr_requests_only_names (k : String) (hosts : List String) (org : String) (dual : Bool) :
+    (genCSR k hosts org dual).sans = hosts ∧ (genCSR k hosts org dual).wantCA = false ∧ (genCSR k hosts org dual).exts = [] ∧
+    (genCSR k hosts org dual).pemOk = true ∧ (genCSR k hosts org dual).derOk = true ∧ (genCSR k hosts org dual).sigOk = true ∧
+    (genCSR k hosts org dual).pubKey = k := by
+  simp [genCSR]
+
+/-- ... and even that is irrelevant: a request with the CSR of `GenCSR` gets the same certificate as one
+    with any other valid CSR for the same key and the same "CommonName is empty" bit (the names come
+    from the authenticated identity). -/
+theorem gencsr_names_do_not_matter {κ : Type} (g : Fixes) (encode : CertData → κ) (srv : Server) (ctx : Ctx)
+    (outs : List AuthOut) (req : Request) (now : Int) (k : String) (hosts hosts' : List String) (org org' : String) (dual : Bool)
+    (hcn : (genCSR k hosts org dual).cn.isEmpty = (genCSR k hosts' org' dual).cn.isEmpty) :
+    createCertificate g encode srv ctx outs { req with csr := genCSR k hosts org dual } now =
+      createCertificate g encode srv ctx outs { req with csr := genCSR k hosts' org' dual } now :=
+  csr_cannot_inject g encode srv ctx outs req now _ _ (by simp [genCSR]) (by simp [genCSR]) (by simp [genCSR]) (by simp [genCSR]) hcn
+
 /-- Without `ImpersonatedIdentity` the SAN source is the caller, whatever else the request says. -/
 theorem no_impersonation_uses_caller (srv : Server) (ctx : Ctx) (caller : Caller) (req : Request)
     (h : req.impersonated = "") : effectiveSans srv ctx caller req = some caller.identities := by
@@ -396,6 +413,42 @@ theorem ttl_bounds {κ : Type} {g : Fixes} {encode : CertData → κ} {decode : 
     simp only [lifetimeOf, this, if_false, Int.min_def]
   · intro hnp
     simp only [Int.min_def]
+
+/-- The lower bound that goes with `ttl_bounds`: with a positive maximum and a positive default TTL an
+    issued certificate is still valid at the time of issuance (NotAfter > now) - whatever was requested. -/
+theorem issued_outlives_now {κ : Type} {g : Fixes} {encode : CertData → κ} {decode : κ → CertData}
+    (hdec : ∀ d, decode (encode d) = d) {srv : Server} {ctx : Ctx} {outs : List AuthOut} {req : Request}
+    {now : Int} {chain : List (Entry κ)} (hmax : 0 < srv.ca.maxTTL) (hdef : 0 < srv.ca.defaultTTL)
+    (h : createCertificate g encode srv ctx outs req now = .ok chain) :
+    ∃ d, leafData decode (.ok chain) = some d ∧ now < d.tmpl.notAfter := by
+  obtain ⟨d, sna, hl, _, _, hlt, _, _, hpos, hnp⟩ := ttl_bounds hdec h
+  refine ⟨d, hl, ?_⟩
+  by_cases hr : 0 < requestedTTL req.validity
+  · rw [hpos hr]
+    simp only [Int.min_def]
+    split <;> omega
+  · have hr' : requestedTTL req.validity ≤ 0 := by omega
+    rw [hnp hr']
+    have hlife : 0 < lifetimeOf g.capDefault srv.ca (requestedTTL req.validity) true := by
+      unfold lifetimeOf
+      simp only [hr', if_true]
+      split <;> omega
+    simp only [Int.min_def]
+    split <;> omega
+
+/-- ... and without that hypothesis the bound fails (observation, a configuration corner): a maximum TTL
+    of zero refuses every positive request, and a request for the default lifetime gets a certificate
+    that ends at the moment it is issued. -/
+def exZeroMax : Server :=
+  { ca := { defaultTTL := 3600, maxTTL := 0, bundle := { signerNotAfter := some 1000000, chain := [], hasRoot := true } },
+    nodeAuth := none }
+
+theorem zero_max_issues_expiring_now_witness :
+    (leafData id (createCertificate Fixes.all id exZeroMax {} [⟨some { identities := ["a.b"] }, false⟩]
+        { csr := {}, validity := 0 } 5)).map (fun d => d.tmpl.notAfter) = some 5 ∧
+    createCertificate Fixes.all id exZeroMax {} [⟨some { identities := ["a.b"] }, false⟩]
+        { csr := {}, validity := 1 } 5 = (.err .invalidArgument : Resp CertData) := by
+  decide
 
 /-- Since the fix a defaulted lifetime never exceeds the maximum. -/
 theorem lifetime_capped (ca : CA) (requested : Int) (h : requested ≤ ca.maxTTL) :
@@ -650,7 +703,24 @@ theorem classify_spiffe_upper (rest : List Char) :
     simp only [List.take_succ_cons, List.take_zero, List.map_cons, List.map_nil]
     decide
 
-/-- ... while the code before fix 197ddc2 turned it into a DNS SAN (finding). -/
+/-- `classify` (the SAN entry of an identity) is not injective: an IPv4-mapped IPv6 literal and the IPv4
+    literal, an IPv6 literal with and without a zone, and different spellings of one address give the
+    SAME iPAddress entry (observation: `san_exact` states "SAN entries = classify of the identities", which
+    for IP-literal identities identifies these spellings; SPIFFE and DNS identities are kept byte for byte,
+    `classify_uri_dns_injective`). -/
+theorem classify_not_injective_witness :
+    classify "::ffff:1.2.3.4" = classify "1.2.3.4" ∧ classify "fe80::1%eth0" = classify "fe80::1" ∧
+    classify "0:0::1" = classify "::1" ∧ classify "ABCD::" = classify "abcd::" := by
+  decide
+
+/-- On identities that are not IP literals `classify` is injective: the entry carries the string itself. -/
+theorem classify_uri_dns_injective (a b : String) (ha : parseAddr a.toList = none) (hb : parseAddr b.toList = none)
+    (h : classify a = classify b) : a = b := by
+  unfold classify at h
+  simp only [ha, hb] at h
+  split at h <;> split at h <;> simp_all
+
+/-- ... while the code before fix 197ddc2 turned an upper-case scheme into a DNS SAN (finding). -/
 theorem classify_upper_scheme_witness_unfixed :
     classifyOld "SPIFFE://td1/ns/a/sa/b" = .dns "SPIFFE://td1/ns/a/sa/b" ∧
     classify "SPIFFE://td1/ns/a/sa/b" = .uri "SPIFFE://td1/ns/a/sa/b" ∧
